@@ -404,6 +404,111 @@ func runG2(p *an.Prog, r *an.Result) {
 			r.OK(name, "comment/raw flags are tested before the open-block pointer", flagTests[0].Pos(), "the innermost open construct is reported first")
 		}
 	}
+	// a pointer that the loop tests against nil as a piece of state must be able to become nil again:
+	// a variable that is set when a block opens and never cleared makes the test true for the rest of
+	// the input (content of a later comment would be appended to an earlier raw block)
+	type stateVar struct {
+		v      ssa.Value
+		tested token.Pos
+	}
+	var svars []stateVar
+	inLoop := func(b *ssa.BasicBlock) bool { return reachesBlock(b, b) }
+	an.EachInstr(fn, func(in ssa.Instruction) {
+		ifi, ok := in.(*ssa.If)
+		if !ok || !inLoop(ifi.Block()) {
+			return
+		}
+		condMentions(ifi.Cond, func(v ssa.Value) bool {
+			b, ok := v.(*ssa.BinOp)
+			if !ok || (b.Op != token.EQL && b.Op != token.NEQ) {
+				return false
+			}
+			for _, pair := range [][2]ssa.Value{{b.X, b.Y}, {b.Y, b.X}} {
+				if !an.IsNilConst(pair[1]) {
+					continue
+				}
+				if _, isPtr := pair[0].Type().Underlying().(*types.Pointer); !isPtr {
+					continue
+				}
+				switch x := pair[0].(type) {
+				case *ssa.Phi:
+					if inLoop(x.Block()) {
+						svars = append(svars, stateVar{x, an.InstrPos(ifi)})
+					}
+				case *ssa.UnOp:
+					if al, ok := x.X.(*ssa.Alloc); ok && al.Heap && x.Op == token.MUL {
+						svars = append(svars, stateVar{al, an.InstrPos(ifi)})
+					}
+				}
+			}
+			return false
+		}, 0)
+	})
+	seenSV := map[ssa.Value]bool{}
+	for _, sv := range svars {
+		if seenSV[sv.v] {
+			continue
+		}
+		seenSV[sv.v] = true
+		setFresh, cleared := false, false
+		note := func(val ssa.Value, at *ssa.BasicBlock) {
+			switch {
+			case an.IsNilConst(val):
+				cleared = true
+			case isFreshAlloc(val):
+				// lazy initialisation (assigned only where the variable was found nil) is not state
+				lazy := an.AllPathsGuarded(at, func(cond ssa.Value, taken bool) bool {
+					b, ok := cond.(*ssa.BinOp)
+					if !ok {
+						return false
+					}
+					isV := func(x ssa.Value) bool { return x == sv.v || isReadOf(sv.v, x) }
+					return (b.Op == token.EQL && taken || b.Op == token.NEQ && !taken) && (isV(b.X) && an.IsNilConst(b.Y) || isV(b.Y) && an.IsNilConst(b.X))
+				})
+				if !lazy {
+					setFresh = true
+				}
+			default:
+				if val != sv.v {
+					cleared = true // restored from somewhere else (a saved frame): may be nil
+				}
+			}
+		}
+		switch x := sv.v.(type) {
+		case *ssa.Phi:
+			for i, e := range x.Edges {
+				if !x.Block().Dominates(x.Block().Preds[i]) {
+					continue // entry edge
+				}
+				note(e, x.Block().Preds[i])
+			}
+		case *ssa.Alloc:
+			for _, f := range append([]*ssa.Function{fn}, fn.AnonFuncs...) {
+				an.EachInstr(f, func(in ssa.Instruction) {
+					st, ok := in.(*ssa.Store)
+					if !ok {
+						return
+					}
+					addr := st.Addr
+					if fv, ok := addr.(*ssa.FreeVar); ok {
+						addr = cellOfFreeVar(fn, f, fv)
+					}
+					if addr == ssa.Value(x) && (f != fn || inLoop(st.Block())) {
+						note(st.Val, st.Block())
+					}
+				})
+			}
+		}
+		if !setFresh {
+			continue
+		}
+		r.Counts["state pointers"]++
+		if cleared {
+			r.OK(name, "state pointer "+varName(sv.v)+" can become nil again", sv.tested, "the loop both sets it to a new node and clears or restores it")
+		} else {
+			r.Bad(name, "state pointer "+varName(sv.v)+" is never cleared", sv.tested, fmt.Sprintf("the token loop tests %s against nil but, once a block has set it, nothing ever sets it back: the test stays true for every later token", varName(sv.v)))
+		}
+	}
 	r.Floor("open-state variables", 1)
 }
 
@@ -574,31 +679,37 @@ func runG4(p *an.Prog, r *an.Result) {
 			}
 		})
 		// one-to-one: no iteration gets back to the loop header without having appended
-		skips := false
-		if body != nil && appendAt != nil {
-			seen := map[*ssa.BasicBlock]bool{appendAt: true}
-			var dfs func(b *ssa.BasicBlock)
-			dfs = func(b *ssa.BasicBlock) {
-				if seen[b] {
-					return
-				}
-				seen[b] = true
-				for _, s := range b.Succs {
-					if s.Dominates(body) && s != body {
-						skips = true // back at the loop header (or before it)
-						return
-					}
-					dfs(s)
-				}
-			}
-			if body != appendAt {
-				dfs(body)
-			}
-		}
+		skips := body != nil && appendAt != nil && iterationCanSkip(body, map[*ssa.BasicBlock]bool{appendAt: true})
 		if fwd && atEnd && perChild && !skips {
 			r.OK(hn, "compiles each child in order and appends the result at the end", an.FuncPos(h), "forward range + append(acc, compiled) on every iteration that does not return")
 		} else {
 			r.Bad(hn, "children not compiled one-to-one in order", an.FuncPos(h), fmt.Sprintf("forward range: %v, append at end: %v, compileNode per child: %v, an iteration can skip the append: %v", fwd, atEnd, perChild, skips))
 		}
 	}
+}
+
+// iterationCanSkip: starting at the first block of a loop body, some path gets back to the loop
+// header (a block that dominates the body) without passing through one of the marked blocks.
+func iterationCanSkip(body *ssa.BasicBlock, marked map[*ssa.BasicBlock]bool) bool {
+	if marked[body] {
+		return false
+	}
+	skips := false
+	seen := map[*ssa.BasicBlock]bool{}
+	var dfs func(b *ssa.BasicBlock)
+	dfs = func(b *ssa.BasicBlock) {
+		if seen[b] || marked[b] || skips {
+			return
+		}
+		seen[b] = true
+		for _, s := range b.Succs {
+			if s.Dominates(body) && s != body {
+				skips = true
+				return
+			}
+			dfs(s)
+		}
+	}
+	dfs(body)
+	return skips
 }
